@@ -130,7 +130,29 @@ def impl_reject(args):
     return out
 
 
+NARROW_POSITIONS = ["(%s)!", "C(%s, 2)", "C(6, %s)", "range(1, %s)", "range(%s, 9)", "1..%s", "%s..9", "sample(Bernoulli(1/2), %s)",
+                    "Binomial(%s, 1/2)", "UniformInt(1, %s)", "UniformInt(%s, 9)", "Poisson(%s)", "#2024-01-01# + %s", "#2024-01-01# - %s"]
+NON_INTEGERS = ["(1/2)", "2.5", "(7/2)", "(3!/4!)", "(5!/7)", "(C(5,2)/4)", "(0-7/2)", "1e-3"]
+WIDER_OK = [("sqrt(3!+3)", "I:3"), ("abs(0-3!)", "I:6"), ("sqrt(4)", "I:2"), ("abs(3!)", "I:6"), ("1..(3!/2)", "A:[I:1;I:2;I:3]"),
+            ("2.0 + 1", "I:3"), ("(4/2)!", "I:2"), ("floor(7/2) + 3!", "I:9")]
+
+
+def narrowing_items():
+    """'never silently narrowed (a non-integer where an integer is required is an error)', for every numeric kind of
+    non-integer incl. lazy quotients; and a value of a narrower kind is accepted where a wider one is expected"""
+    items = []
+    for pat in NARROW_POSITIONS:
+        for v in NON_INTEGERS:
+            items.append(([pat % v], (lambda o: o.get("status") == 1 and not o.get("escaped") and (o.get("err") or "").strip() != ""
+                                      and (o.get("out") or "") == ""),
+                          "a non-integer where an integer is required is a diagnosed error"))
+    for text, want in WIDER_OK:
+        items.append(([text], want, "a value of a narrower kind is accepted where a wider numeric kind is expected"))
+    return items
+
+
 def run(ctx):
+    C.expect_sessions(ctx["report"], ctx["rundir"], "C10", narrowing_items(), kind="narrowing")
     rep, tier, seed = ctx["report"], ctx["tier"], ctx["seed"]
     d = json.load(open(C.BUILD + "/dump.json"))
     kinds = d["kinds"]
